@@ -245,6 +245,20 @@ ArrayIndex3 ==           \* Array([e0, e1, e2])[idx] with a 1-bit index: e2 can 
        /\ ix.sh = Unsigned(1)
        /\ Emit(4, EP(Unify(e0.sh, e1.sh), [k \in Vals |-> IF ix.v[k] = 0 THEN e0.v[k] ELSE e1.v[k]]), [op |-> "ArrayIndex", n |-> 3])
 
+(* Array([e0, e1, e2])[idx] with a two-bit index of either signedness: an index whose value equals no position     *)
+(* (3 for an unsigned, -2 / -1 for a signed index; position 2 cannot even be written in signed(2)) selects nothing: *)
+(* reading gives 0.  Only the testbench side (C05: "handled identically in both") is judged on this.                *)
+ArrayIndexS ==
+    /\ "ArrayIndexS" \in Ops /\ Len(stack) >= 4
+    /\ LET e0 == Top(3)
+           e1 == Top(2)
+           e2 == Top(1)
+           ix == Top(0) IN
+       /\ ix.sh \in {Signed(2), Unsigned(2)}
+       /\ Emit(4, EP(Unify(Unify(e0.sh, e1.sh), e2.sh),
+                    [k \in Vals |-> IF ix.v[k] = 0 THEN e0.v[k] ELSE IF ix.v[k] = 1 THEN e1.v[k]
+                                    ELSE IF ix.v[k] = 2 THEN e2.v[k] ELSE 0]), [op |-> "ArrayIndex", n |-> 3])
+
 UnOps == {"Neg", "Pos", "Inv", "Abs", "Bool", "Any", "All", "XorR", "AsSigned", "AsUnsigned"}
 BinOps == {"Add", "Sub", "Mul", "FloorDiv", "Mod", "Eq", "Ne", "Lt", "Le", "Gt", "Ge", "And", "Or", "Xor", "Shl", "Shr"}
 
@@ -263,7 +277,7 @@ Next ==
     \/ \E w \in PartWs : BitSelect(w) \/ WordSelect(w)
     \/ \E off \in (Idxs \cap Nat), w \in PartWs : BitSelectC(off, w) \/ WordSelectC(off, w)
     \/ \E ps \in PatSets : Matches(ps)
-    \/ Mux \/ ArrayIndex2 \/ ArrayIndex3
+    \/ Mux \/ ArrayIndex2 \/ ArrayIndex3 \/ ArrayIndexS
 Spec == Init /\ [][Next]_vars
 
 (* ------------------------------ properties ------------------------------ *)
